@@ -8,6 +8,8 @@ package main
 
 import (
 	"fmt"
+	"go/token"
+	"go/types"
 	"unsafe"
 )
 
@@ -127,6 +129,73 @@ func init() {
 				return old
 			}
 		}
+	}
+	// atomic.Value: its only field holds the interface value; Load/Store/Swap/CompareAndSwap are plain
+	// accesses to that field (the real methods reinterpret the field through unsafe.Pointer)
+	valueSlot := func(m *Machine, a value) *value {
+		p := m.derefCheck(a.(*value))
+		st := (*p).(structure)
+		return &st[0]
+	}
+	checkStore := func(m *Machine, slot *value, nv value, what string) {
+		n, _ := nv.(iface)
+		if n.t == nil {
+			m.tpanic("sync/atomic: " + what + " of nil value into Value")
+		}
+		if o, _ := (*slot).(iface); o.t != nil && !types.Identical(o.t, n.t) {
+			m.tpanic("sync/atomic: " + what + " of inconsistently typed value into Value")
+		}
+	}
+	externals["(*sync/atomic.Value).Load"] = func(m *Machine, fr *frame, a []value) value {
+		v := *valueSlot(m, a[0])
+		if v == nil {
+			return iface{}
+		}
+		return v
+	}
+	externals["(*sync/atomic.Value).Store"] = func(m *Machine, fr *frame, a []value) value {
+		slot := valueSlot(m, a[0])
+		checkStore(m, slot, a[1], "store")
+		m.storeSlot(slot, a[1])
+		return nil
+	}
+	externals["(*sync/atomic.Value).Swap"] = func(m *Machine, fr *frame, a []value) value {
+		slot := valueSlot(m, a[0])
+		checkStore(m, slot, a[1], "swap")
+		old := *slot
+		m.storeSlot(slot, a[1])
+		if old == nil {
+			return iface{}
+		}
+		return old
+	}
+	// sync.Pool, sequentially: Get hands back the most recently Put object, else calls New (the real
+	// pool may drop objects at any time; reuse is the case that exposes stale state, and a counterexample
+	// that depends on it is confirmed natively like any other)
+	externals["(*sync.Pool).Put"] = func(m *Machine, fr *frame, a []value) value {
+		p := m.derefCheck(a[0].(*value))
+		if x, _ := a[1].(iface); x.t == nil {
+			return nil
+		}
+		if m.pools == nil {
+			m.pools = map[*value][]value{}
+		}
+		m.pools[p] = append(m.pools[p], a[1])
+		return nil
+	}
+	externals["(*sync.Pool).Get"] = func(m *Machine, fr *frame, a []value) value {
+		p := m.derefCheck(a[0].(*value))
+		if items := m.pools[p]; len(items) > 0 {
+			x := items[len(items)-1]
+			m.pools[p] = items[:len(items)-1]
+			return x
+		}
+		st := (*p).(structure)
+		newFn := st[len(st)-1] // field New func() any (last field of sync.Pool)
+		if newFn == nil {
+			return iface{}
+		}
+		return m.call(fr, token.NoPos, newFn, nil)
 	}
 	// the semaphore slow paths of sync are never needed sequentially; reaching one means a
 	// lock is taken twice on one path (a deadlock in the real program)
